@@ -132,8 +132,12 @@ func runProgram(ops []*opDef, stdlib bool) result {
 	for i, op := range ops {
 		srcs[i] = op.src
 	}
+	tag := ""
 	for _, op := range ops {
 		pred = st.step(op)
+		if pred.tag != "" {
+			tag = pred.tag
+		}
 		if pred.probe != nil || pred.zone != "" {
 			// where a load stops is not determined inside an unspecified zone
 			res.zoneSkip = "program-with-unspecified-operation"
@@ -155,6 +159,9 @@ func runProgram(ops []*opDef, stdlib bool) result {
 	res.diffs = ds
 	if len(ds) > 0 {
 		res.class = "program:" + res.lastOp.Class + ":" + ds[0].kind
+		if tag != "" {
+			res.class = "program:" + res.lastOp.Class + ":" + tag + ":" + ds[0].kind
+		}
 	}
 	return res
 }
